@@ -5,4 +5,6 @@
 DIR=$(cd "$(dirname "$0")" && pwd)
 ID="$1"; TIER="${2:-${VERIF_TIER:-quick}}"
 "$DIR/build.sh" || exit 2
-exec "$DIR/bin/goatsim" run "$ID" --tier "$TIER" --verif "$DIR"
+BIN="${VERIF_BIN:-$DIR/bin/goatsim}"
+[ -n "$VERIF_REPO" ] && export GOATSIM_REPO="$VERIF_REPO"
+exec "$BIN" run "$ID" --tier "$TIER" --verif "${VERIF_OUT:-$DIR}" $VERIF_EXTRA
